@@ -534,3 +534,55 @@ func (w *World) checkMergeStage(got map[string]string, merges []map[string]strin
 	}
 	return vs
 }
+
+// ConfigDemand evaluates every configuration field of every eagerly created component with
+// the menu evaluator: "must-fail" (+ why) if a required value is missing or a bound value
+// violates its constraint, "open" if some field cannot be judged (ambiguous loader order, a
+// key missing inside an expression, a lazy component that may or may not be created), ""
+// if every field is satisfied.
+func (w *World) ConfigDemand() (string, string) {
+	p := w.P
+	merges := AllMerges(p)
+	for _, m := range merges[min(1, len(merges)):] {
+		if fmt.Sprint(m) != fmt.Sprint(merges[0]) {
+			return "open", ""
+		}
+	}
+	cfg := map[string]string{}
+	if len(merges) != 0 {
+		cfg = merges[0]
+	}
+	res, why := "", ""
+	for _, i := range p.Instances {
+		t := w.Types[i.Type]
+		for _, cf := range t.Config {
+			e := evalConf(cf, cfg)
+			bad := e.Missing && !cf.Optional || e.Violate && cf.Menu != "prefixStruct"
+			switch {
+			case t.Lazy:
+				if (bad || e.Open) && res == "" {
+					res = "open"
+				}
+			case e.Open:
+				if res == "" {
+					res = "open"
+				}
+			case bad:
+				if res != "must-fail" {
+					res = "must-fail"
+					if e.Missing && !cf.Optional {
+						why = fmt.Sprintf("%s.%s: required configuration value is missing", i.ID, cf.Field)
+					} else {
+						why = fmt.Sprintf("%s.%s: bound value %q violates validate=%s", i.ID, cf.Field, e.Value, cf.Validate)
+					}
+				}
+			}
+		}
+	}
+	for _, i := range p.Instances {
+		if i.SetKey != "" && res == "" {
+			res = "open" // the configuration changes while the container runs
+		}
+	}
+	return res, why
+}
